@@ -105,6 +105,8 @@ func expRange(e ExpSpec, res Result) (lo, hi uint32) {
 
 var decimalRe = regexp.MustCompile(`^[0-9]+$`)
 
+var macroSlack int
+
 // docSizeVerdict: -1 definitely fits, +1 definitely too big, 0 too close to call.
 func docSizeVerdict(body []byte, x map[string]string) int {
 	max := rosmar.MaxDocSize
@@ -123,7 +125,7 @@ func docSizeVerdict(body []byte, x map[string]string) int {
 	}
 	total := n + xs
 	switch {
-	case total+64 < max:
+	case total+64+macroSlack < max:
 		return -1
 	case total > max+64+len(x)*8:
 		return 1
@@ -708,7 +710,9 @@ func macrosCannotExpand(op Op) bool {
 // ExpectAll wraps Expect: when macro expansion must fail, every outcome is "some error, nothing
 // changed" (the expansion error and any other refusal may come in either order).
 func ExpectAll(op Op, p St, res Result) []Alt {
+	macroSlack = 48 * len(op.Macros) // expanded macros make the stored xattrs longer than the arguments
 	alts := Expect(op, p, res)
+	macroSlack = 0
 	if macrosCannotExpand(op) && !(op.K == "WriteUpdateWithXattrs" && op.Cb == "error") {
 		var out []Alt
 		for _, a := range alts {
